@@ -7,6 +7,15 @@
 From PyRTL Require Import Gen.C13Src Lib.Mult Lib.SeqMult Lib.BitListFacts Lib.AddersProofs.
 From Coq Require Import ZifyBool.
 
+(* the bridging proofs are SEMANTIC (truth tables / lia), so an equivalent rewrite of a source
+   expression still checks; a change of meaning does not *)
+Lemma map2_ext {A B C} (f g : A -> B -> C) : (forall x y, f x y = g x y) ->
+  forall a b, map2 f a b = map2 g a b.
+Proof.
+  intros H a. induction a as [|x ta IH]; intros [|y tb]; cbn [map2]; try reflexivity.
+  rewrite H, IH. reflexivity.
+Qed.
+
 (* ------------------------------------------------------------- gate level *)
 
 Theorem src_gates :
@@ -41,8 +50,11 @@ Lemma ks_update_src d g p i :
    if src_ks_guard (Z.of_nat i) (Z.of_nat d)
    then set_nth i (src_ks_upd_prop (nth i p false) (nth (i - d) p false)) p else p).
 Proof.
-  unfold ks_update, src_ks_upd_gen, src_ks_upd_prop, src_ks_guard.
-  replace (Z.of_nat i >=? Z.of_nat d * 2) with (2 * d <=? i)%nat by lia. reflexivity.
+  unfold ks_update.
+  assert (G : forall x y z, x || (y && z) = src_ks_upd_gen x y z) by (intros [] [] []; reflexivity).
+  assert (P : forall x y, x && y = src_ks_upd_prop x y) by (intros [] []; reflexivity).
+  assert (C : (2 * d <=? i)%nat = src_ks_guard (Z.of_nat i) (Z.of_nat d)) by (unfold src_ks_guard; lia).
+  rewrite G, P, C. reflexivity.
 Qed.
 
 Lemma ks_loop_src f d n gp :
@@ -68,8 +80,10 @@ Theorem src_kogge :
      = src_ks_fold (src_ks_gen x y) (src_ks_prop x y) cin :: map2 src_ks_gen ta tb).
 Proof.
   split; [exact ks_update_src|]. split; [exact ks_loop_src|]. split.
-  - intros a b. split; reflexivity.
-  - intros. reflexivity.
+  - intros a b. split; apply map2_ext; intros [] []; reflexivity.
+  - intros. unfold ks_init_gen, ks_init_gen_cin. cbn [map2].
+    rewrite (map2_ext andb src_ks_gen) by (intros [] []; reflexivity).
+    destruct x, y, cin; reflexivity.
 Qed.
 
 (* ------------------------------------------------------------- cla_adder *)
@@ -89,8 +103,33 @@ Theorem src_cla :
                                          g0 p0 (src_cla_c0 g0 p0 cin) in
      (src_cla_s0 p0 cin :: ss, src_cla_cout cg cp cin)).
 Proof.
-  repeat split; intros; try reflexivity.
-  unfold src_cla_fits. lia.
+  assert (G : forall x y, andb x y = src_cla_gen x y) by (intros [] []; reflexivity).
+  assert (P : forall x y, xorb x y = src_cla_prop x y) by (intros [] []; reflexivity).
+  split; [intros; unfold src_cla_fits; lia|].
+  split; [intros a b; split; apply map2_ext; assumption|].
+  split.
+  - intros g p t cg cp cprev. cbn [cla_unit_loop].
+    replace (g || p && cg) with (src_cla_cur_gen g p cg) by (destruct g, p, cg; reflexivity).
+    replace (cp && p) with (src_cla_cur_prop cp p) by (destruct cp, p; reflexivity).
+    replace (g || p && cprev) with (src_cla_carry g p cprev) by (destruct g, p, cprev; reflexivity).
+    replace (xorb p cprev) with (src_cla_sumbit p cprev) by (destruct p, cprev; reflexivity).
+    reflexivity.
+  - intros x y ta tb cin. unfold cla_unit. cbn [map2 combine]. cbv zeta.
+    assert (Hg : forall u v, src_cla_gen u v = u && v) by (intros [] []; reflexivity).
+    assert (Hp : forall u v, src_cla_prop u v = xorb u v) by (intros [] []; reflexivity).
+    assert (Hc0 : forall g p c, src_cla_c0 g p c = g || p && c) by (intros [] [] []; reflexivity).
+    assert (Hs0 : forall p c, src_cla_s0 p c = xorb p c) by (intros [] []; reflexivity).
+    assert (Hco : forall g p c, src_cla_cout g p c = g || p && c) by (intros [] [] []; reflexivity).
+    replace (map2 src_cla_gen ta tb) with (map2 andb ta tb) by (apply map2_ext; intros [] []; reflexivity).
+    replace (map2 src_cla_prop ta tb) with (map2 xorb ta tb) by (apply map2_ext; intros [] []; reflexivity).
+    replace (src_cla_c0 (src_cla_gen x y) (src_cla_prop x y) cin) with (x && y || xorb x y && cin)
+      by (destruct x, y, cin; reflexivity).
+    replace (src_cla_s0 (src_cla_prop x y) cin) with (xorb (xorb x y) cin) by (destruct x, y, cin; reflexivity).
+    replace (src_cla_gen x y) with (x && y) by (destruct x, y; reflexivity).
+    replace (src_cla_prop x y) with (xorb x y) by (destruct x, y; reflexivity).
+    destruct (cla_unit_loop _ _ _ _) as [ss [cg cp]].
+    replace (src_cla_cout cg cp cin) with (cg || cp && cin) by (destruct cg, cp, cin; reflexivity).
+    reflexivity.
 Qed.
 
 (* ------------------------------------------------- Wallace / Dada / sparse *)
